@@ -101,6 +101,7 @@ Definition nlink (f : fs) (i : N) : N := N.of_nat (List.length (filter (is_link_
 Inductive skind := SReg | SDir | SFifo | SLnk.
 
 Record stat := {
+  st_ino : N;              (* inode number (one device) *)
   st_kind : skind;
   st_mode : N;
   st_nlink : N;
@@ -115,12 +116,12 @@ Definition skind_of (k : kind) : skind :=
   match k with KReg => SReg | KDir => SDir | KFifo => SFifo end.
 
 Definition stat_of (f : fs) (i : N) (nd : inode) : stat :=
-  {| st_kind := skind_of (i_kind nd); st_mode := i_mode nd; st_nlink := nlink f i;
+  {| st_ino := i; st_kind := skind_of (i_kind nd); st_mode := i_mode nd; st_nlink := nlink f i;
      st_uid := i_uid nd; st_gid := i_gid nd; st_atime := i_atime nd; st_mtime := i_mtime nd;
      st_size := N.of_nat (List.length (i_data nd)) |}.
 
 Definition lnk_stat (target : path) : stat :=
-  {| st_kind := SLnk; st_mode := 511; st_nlink := 1; st_uid := 0; st_gid := 0;
+  {| st_ino := 0; st_kind := SLnk; st_mode := 511; st_nlink := 1; st_uid := 0; st_gid := 0;
      st_atime := 0; st_mtime := 0; st_size := N.of_nat (String.length target) |}.
 
 (* ---- path resolution (symbolic links are followed at most [fuel] times) ---------- *)
@@ -159,6 +160,24 @@ Definition sys_open_rd (f : fs) (p : path) : sysres N :=
       end
   | SErr e => SErr e
   | SHang => SHang
+  end.
+
+(* stat(p): follows symbolic links *)
+Definition sys_stat (f : fs) (p : path) : sysres stat :=
+  match resolve f SYMLOOP_MAX p with
+  | SOk i => match ilook f i with
+             | Some nd => SOk (stat_of f i nd)
+             | None => SErr ENOENT
+             end
+  | SErr e => SErr e
+  | SHang => SHang
+  end.
+
+(* `0 == stat(q, &o) && o.st_dev == sbuf->st_dev && o.st_ino == sbuf->st_ino`: the name q leads to the file described by st *)
+Definition same_file (f : fs) (q : path) (st : stat) : bool :=
+  match sys_stat f q with
+  | SOk st' => N.eqb (st_ino st') (st_ino st)
+  | _ => false
   end.
 
 Definition sys_fstat (f : fs) (i : N) : sysres stat :=
